@@ -11,11 +11,15 @@
     TD:<us> | PD:<us> | m8<unit>:<us>   `datetime.timedelta` / `pd.Timedelta` / `np.timedelta64[unit]`: the duration `tdelta`
     m8Y:<years> | m8M:<months> | CM:<months>   an `np.timedelta64` in calendar units (scalar; `CM:` = a cell of an `mY` / `mM` array): `cdelta` (months)
     NaT:P | NaT:M | NaT:m   `pd.NaT`, `np.datetime64('NaT')`, `np.timedelta64('NaT')`: `nat`
+    m8ps:<n> | m8fs:<n> | m8as:<n>   an `np.timedelta64` of n pico / femto / attoseconds (the COUNT): `ftd` (attoseconds)
     (L v*) (T v*)   list / tuple
+    (LS <n> v*)     an instance of list / tuple SUBCLASS number n >= 1 (harness: 1, 2 = two namedtuple classes, 3, 4 = two `list` subclasses, 5 = a `tuple` subclass)
+    (IX <kind> (label*))   a `pd.Index` as a value; kind word (o = Index, r = RangeIndex, d = DatetimeIndex, m = MultiIndex-free others) ignored by the model
     (D (hexkey v)*) plain dict;  (DC <n> (hexkey v)*)  dict subclass number n >= 1
     (A <dtype> (<n>*) v*)        ndarray: dtype word (i f e b U o, Mns Mus Ms MD Mps Mfs = datetime64, mns mus mD mY mM = timedelta64;
                                  ignored by the model: `eq` compares cells, not dtypes), shape, cells row-major
     (S (label*) v*)              Series: index labels, values
+    (SN <name> (label*) v*)      the same Series with `name` = the cell <name> (ignored by the model: `eq` compares index and cells, not names)
     (DF (label*) (label*) v*)    DataFrame: index labels, column labels, cells row-major
   ops:  (eq eq x y)  (eq in x (L v*))  (eq pyeq x y)
         (eq eqr x y)   the raising reading `eqR`: `ok B:_` or `err <kind>`
@@ -50,6 +54,9 @@ partial def ofSexp : Sexp → Option EVal
       match s.splitOn ":" with
       | [_, n] => n.toInt?.map .cdelta
       | _ => Option.none
+    else if s.startsWith "m8ps:" then (s.drop 5).toString.toInt?.map fun n => .ftd (1000000 * n)
+    else if s.startsWith "m8fs:" then (s.drop 5).toString.toInt?.map fun n => .ftd (1000 * n)
+    else if s.startsWith "m8as:" then (s.drop 5).toString.toInt?.map .ftd
     else if s.startsWith "m8" then
       match s.splitOn ":" with
       | [_, n] => n.toInt?.map .tdelta
@@ -58,6 +65,10 @@ partial def ofSexp : Sexp → Option EVal
     else (cellAtom (.atom s)).map .cell
   | .node (.atom "L" :: xs) => (xs.mapM ofSexp).map .list
   | .node (.atom "T" :: xs) => (xs.mapM ofSexp).map .tuple
+  | .node (.atom "LS" :: .atom n :: xs) => do
+      let n ← n.toNat?
+      if n = 0 then Option.none else (xs.mapM ofSexp).map (.sub n)
+  | .node [.atom "IX", .atom _, .node labels] => (labels.mapM cellAtom).map .index
   | .node (.atom "D" :: kvs) => (kvs.mapM kv).map (.dict 0)
   | .node (.atom "DC" :: .atom n :: kvs) => do
       let n ← n.toNat?
@@ -67,6 +78,10 @@ partial def ofSexp : Sexp → Option EVal
       let cells ← cells.mapM ofSexp
       if shape.foldl (· * ·) 1 = cells.length then pure (.arr shape cells) else Option.none
   | .node (.atom "S" :: .node idx :: cells) => do
+      let idx ← idx.mapM cellAtom
+      let cells ← cells.mapM ofSexp
+      if idx.length = cells.length then pure (.series idx cells) else Option.none
+  | .node (.atom "SN" :: .atom _ :: .node idx :: cells) => do      -- a Series that has a NAME: `eq` never looks at it, the model has none
       let idx ← idx.mapM cellAtom
       let cells ← cells.mapM ofSexp
       if idx.length = cells.length then pure (.series idx cells) else Option.none
@@ -100,6 +115,7 @@ def handle1 (op : String) (args : List Sexp) : Option String := do
       match ← ofSexp s with
       | .list xs => pure (bool (in_ a xs))
       | .tuple xs => pure (bool (in_ a xs))
+      | .sub _ xs => pure (bool (in_ a xs))
       | _ => Option.none
   | "eqr", [a, b] =>
       let a ← ofSexp a; let b ← ofSexp b
